@@ -560,9 +560,10 @@ class MinFlowDecomp(pathmodel.AbstractPathModelDAG): # Note that we inherit from
 
         self._lowerbound_k = self.optimization_options.get("lowerbound_k", 1)
 
-        all_weights = set({int(self.G.edges[e][self.flow_attr]) for e in self.G.edges() if self.flow_attr in self.G.edges[e]})
+        all_weights = set({int(self.G.edges[e][self.flow_attr]) for e in self.G.edges() if self.flow_attr in self.G.edges[e] and e not in self.edges_to_ignore})
         
-        self._lowerbound_k = max(self._lowerbound_k, math.ceil(math.log2(len(all_weights))))
+        if len(all_weights) > 0:
+            self._lowerbound_k = max(self._lowerbound_k, math.ceil(math.log2(len(all_weights))))
 
         self._lowerbound_k = max(self._lowerbound_k, stG.get_width(edges_to_ignore=list(stG.source_sink_edges) + list(self.edges_to_ignore)))
 
